@@ -153,6 +153,10 @@ def _ops():
                                                            lambda s, sp: (setattr(s.ins, "type", "bool"), setattr(s.ins, "value", "maybe"))))
     op("length-on-non-string", "length-reference-on-non-string")((lambda s, sp: s.ins is not None and s.ins.kind == "field" and s.ins.length is None and s.ins.type in ("byte", "char", "short", "three", "int", "blob", "bool") and s.lens,
                                                                   lambda s, sp: setattr(s.ins, "length", next(iter(s.lens)))))
+    op("length-on-non-string", "length-bound-string-retyped-to-int")((lambda s, sp: s.ins is not None and s.ins.kind == "field" and isinstance(s.ins.length, str) and s.ins.type in ("string", "encoded_string"),
+                                                                      lambda s, sp: (setattr(s.ins, "type", "short"), setattr(s.ins, "padded", False))))
+    op("length-on-non-string", "numeric-length-string-retyped-to-struct")((lambda s, sp: s.ins is not None and s.ins.kind == "field" and isinstance(s.ins.length, int) and s.ins.type in ("string", "encoded_string") and s.ins.value is None and any(not hasattr(d, "values") for d, _p in sp.types().values()),
+                                                                           lambda s, sp: (setattr(s.ins, "type", next(n for n, (d, _p) in sp.types().items() if not hasattr(d, "values"))), setattr(s.ins, "padded", False))))
     op("after-dummy", "field-after-container-ending-in-dummy")((lambda s, sp: s.ins is not None and s.ins.kind in ("chunked", "switch") and _ends_in_dummy(s.ins),
                                                                 lambda s, sp: s.body.insert(s.index + 1, F(_fresh(s.names), "char", optional=True))))
     op("hardcoded-wrong-length", "string-literal-length")((lambda s, sp: s.ins is not None and s.ins.kind == "field" and not s.ins.optional and s.ins.type in ("string", "encoded_string") and isinstance(s.ins.length, int),
